@@ -310,8 +310,11 @@ func (c *wsConn) handleOutChans() {
 			Method:  chValue,
 			Params:  rp,
 		}); err != nil {
+			// not fatal for this goroutine: it serves every connection this wsConn
+			// will ever have (a client keeps its wsConn across reconnects), and it
+			// stops when the wsConn does (exiting)
 			log.Warnf("sendRequest failed: %s", err)
-			return
+			continue
 		}
 	}
 }
